@@ -427,7 +427,7 @@ def full_stack_suite(ctx, count, batch=False):
 
 # ---- the whole of `_parsing.run` inside the model: Lean rule functions + lazy cache + search -----
 
-def lazy_case(rng, lang, m, with_seen, with_beta):
+def lazy_case(rng, lang, m, with_seen, with_beta, dup=False):
     """one call of the real depccg.parsing.run (real rule functions of `lang`, m sentences sharing
     category table and cache) and the protocol line that makes the Lean model do the same thing
     *by itself*: its own En / Ja rule functions, its own callbacks, search and finaliser"""
@@ -445,14 +445,26 @@ def lazy_case(rng, lang, m, with_seen, with_beta):
         base.beta = rng.choice([0.5, 0.1, 0.001])
         base.pruning = rng.choice([1, 2, 3, 50])
     max_length = rng.choice([250, 250, 3])
+    if dup:
+        # the same category named by two columns of the tag matrix: `run` must reject the call
+        j = rng.randrange(len(cats))
+        cats = list(cats) + [cats[j]]
+        base.T += 1
+        for p, _ in sents:
+            p.T += 1
+            for row in p.tags:
+                row.append(row[j])
     for p, _ in sents:
         p.use_beta, p.beta, p.pruning = base.use_beta, base.beta, base.pruning
     pops = pyxrt.trace_pops(True)
     try:
-        res = native.setup()['parsing'].run([t for _, t in sents], [G.scoring(p) for p, _ in sents], list(cats), list(root_cats),
-                                            bfun, ufun, unary_penalty=base.penalty / S.SCALE, beta=base.beta, use_beta=base.use_beta,
-                                            pruning_size=base.pruning, nbest=base.nbest, max_step=base.max_step, max_length=max_length,
-                                            processes=1, max_chunk_size=1000)
+        try:
+            res = native.setup()['parsing'].run([t for _, t in sents], [G.scoring(p) for p, _ in sents], list(cats), list(root_cats),
+                                                bfun, ufun, unary_penalty=base.penalty / S.SCALE, beta=base.beta, use_beta=base.use_beta,
+                                                pruning_size=base.pruning, nbest=base.nbest, max_step=base.max_step, max_length=max_length,
+                                                processes=1, max_chunk_size=1000)
+        except RuntimeError as e:
+            res = e
         real_pops = [(1 if f else 0, S.to_int(i), S.to_int(o), s, l, c, h, rr) for f, i, o, s, l, c, h, rr in pops]
     finally:
         pyxrt.trace_pops(False)
@@ -474,8 +486,65 @@ def lazy_case(rng, lang, m, with_seen, with_beta):
             parts.append('0')
     line = ' '.join(' '.join(parts).split())
     desc = dict(lang=lang, seen=with_seen, sentences=[p.to_json() for p, _ in sents], categories=[str(c) for c in cats],
-                roots=[str(c) for c in root_cats], max_length=max_length)
-    return desc, real_pops, res, line
+                roots=[str(c) for c in root_cats], max_length=max_length, duplicate_category=dup)
+    return desc, real_pops, res, line, (sents, cats, root_cats, bfun, ufun, max_length)
+
+
+def lazy_oracle(sents, cats, root_cats, bfun, ufun, max_length, res):
+    """independent check of what the real `run` returned, written from C02 / C09 / C11: one result
+    list per sentence; every tree has the sentence's tokens as leaves, admitted supertags, nodes
+    licensed by the rule functions (category, label, symbol, head direction), an allowed root, no
+    unary step at the root of a multi-word sentence, and the reported score recomputes from it"""
+    if len(res) != len(sents):
+        return f'{len(res)} result lists for {len(sents)} sentences'
+    for si, ((p, toks), trees) in enumerate(zip(sents, res)):
+        failed = len(trees) == 1 and trees[0].score == -float('inf')
+        if failed:
+            continue
+        if p.n > max_length:
+            return f'sentence {si} is longer than max_length but was parsed'
+        if len(trees) > p.nbest:
+            return f'sentence {si}: {len(trees)} trees for nbest={p.nbest}'
+        admitted = S.admitted_tags(p)
+        for st in trees:
+            tree = st.tree
+            leaves = tree.leaves
+            if [dict(l.token) for l in leaves] != [dict(t) for t in toks]:
+                return f'sentence {si}: leaves are not the input tokens in order'
+            for i, leaf in enumerate(leaves):
+                if not any(cats[j] == leaf.cat for j in admitted[i] if j < len(cats)):
+                    return f'sentence {si}: leaf {i} carries {leaf.cat}, not an admitted supertag'
+
+            def rec(node):
+                if node.is_leaf:
+                    return None
+                kids = node.children
+                rs = ufun(kids[0].cat) if len(kids) == 1 else bfun(kids[0].cat, kids[1].cat)
+                if not any(r.cat == node.cat and r.op_string == node.op_string and r.op_symbol == node.op_symbol
+                           and (len(kids) == 1 or bool(r.head_is_left) == bool(node.head_is_left)) for r in rs):
+                    return f'sentence {si}: node {node.cat} ({node.op_string}) is not a result of the rule function for its children'
+                for k in kids:
+                    why = rec(k)
+                    if why:
+                        return why
+                return None
+            why = rec(tree)
+            if why:
+                return why
+            if tree.cat not in root_cats:
+                return f'sentence {si}: root category {tree.cat} is not an allowed root'
+            if p.n > 1 and tree.is_unary:
+                return f'sentence {si}: unary step at the root of a multi-word sentence'
+            ids = {}
+            for j, c in enumerate(cats):
+                ids.setdefault(c, j)
+            try:
+                want = rescore_real_tree(p, cats, tree)
+            except (KeyError, ValueError):
+                want = None
+            if want is not None and S.to_int(st.score) != want:
+                return f'sentence {si}: reported score {st.score} but the tree scores {want}/{S.SCALE}'
+    return None
 
 
 def parse_lazy_output(out):
@@ -521,7 +590,7 @@ def lazy_suite(ctx, count, batch=False):
         tries += 1
         try:
             c = lazy_case(rng, 'ja' if tries % 3 == 0 else 'en', rng.randint(2, 4) if batch else 1,
-                          with_seen=(tries % 4 == 1), with_beta=(tries % 5 == 2))
+                          with_seen=(tries % 4 == 1), with_beta=(tries % 5 == 2), dup=(tries % 8 == 5))
         except Exception as e:
             ctx.fail(f'depccg.parsing.run raised {type(e).__name__}: {e}', {'suite': 'lazy'},
                      fingerprint=['lazy-raise', type(e).__name__])
@@ -530,9 +599,23 @@ def lazy_suite(ctx, count, batch=False):
             cases.append(c)
     outs = run_lines(setup + [c[3] for c in cases])[len(setup):]
     parsed = 0
-    for (desc, real_pops, res, line), out in zip(cases, outs):
+    rejected = 0
+    for (desc, real_pops, res, line, orc), out in zip(cases, outs):
         ctx.evaluations += 1
         ctx.traces += 1
+        if isinstance(res, Exception):
+            if desc['duplicate_category']:
+                rejected += 1
+            else:
+                ctx.fail(f'depccg.parsing.run raised {type(res).__name__}: {res}', desc, fingerprint=['lazy-raise', type(res).__name__])
+            if out != 'err RuntimeError':
+                ctx.disagree('lazyrun', desc, out[:200], 'RuntimeError')
+            continue
+        why = lazy_oracle(*orc, res)
+        if why is None and desc['duplicate_category']:
+            why = 'a category list naming one category twice was not rejected'
+        if why:
+            ctx.fail(why, desc, fingerprint=['lazy-oracle', why.split(':')[-1].strip()[:40]])
         if not out.startswith('ok'):
             ctx.disagree('lazyrun', desc, out[:200], 'a result list', line=line[:3000])
             continue
@@ -573,3 +656,4 @@ def lazy_suite(ctx, count, batch=False):
             ctx.nontrivial_add(json.dumps(desc, sort_keys=True)[:3000])
     ctx.extra['lazy_cases' + ('_batch' if batch else '')] = len(cases)
     ctx.extra['lazy_parsed_sentences' + ('_batch' if batch else '')] = parsed
+    ctx.extra['lazy_rejected_duplicate_lists' + ('_batch' if batch else '')] = rejected
